@@ -12,7 +12,7 @@ import vf
 
 
 def cfgtext(maxr, horizon):
-    return ("INIT Init\nNEXT Next\nVIEW View\nCONSTANTS\n  MAXR = %d\n  AT = 2\n  Horizon = %d\n  RespStopsWait = TRUE\n"
+    return ("INIT Init\nNEXT Next\nVIEW View\nCONSTANTS\n  MAXR = %d\n  AT = 2\n  Horizon = %d\n  RespStopsWait = TRUE\n  QueuedMs = {0, 150}\n"
             "INVARIANTS Emit Inv_Bound Inv_Spacing Inv_StopAfter Inv_NoFalseSuccess\n" % (maxr, horizon))
 
 
@@ -43,11 +43,19 @@ def run(ctx):
             for k in range(1, len(h)):
                 prefixes.add(json.dumps(h[:k]))
         maximal = [h for h in hl if json.dumps(h) not in prefixes]
+        import random
         cap = 6000 if thorough else 1500
-        if len(maximal) > cap:
-            import random
-            maximal = random.Random(ctx.seed * 7 + maxr).sample(maximal, cap)
+        direct = [h for h in maximal if h[0]["a"] != "queue"]
+        queued = [h for h in maximal if h[0]["a"] == "queue"]
+        if len(direct) > cap:
+            direct = random.Random(ctx.seed * 7 + maxr).sample(direct, cap)
             ctx.notes.append("MAX_RETRANSMIT=%d: seeded sample of %d witness histories" % (maxr, cap))
+        # histories of a request that first waited 150 ms (real time) behind the NSTART limit: a seeded sample
+        qcap = 1500 if thorough else 250
+        if len(queued) > qcap:
+            queued = random.Random(ctx.seed * 11 + maxr).sample(queued, qcap)
+        ctx.cov["histories_queued_behind_nstart"] = ctx.cov.get("histories_queued_behind_nstart", 0) + len(queued)
+        maximal = direct + queued
         for h in maximal:
             stim.append({"t": len(stim) + 1, "maxr": maxr, "at": 2, "steps": h})
     if not stim:
@@ -85,5 +93,5 @@ def run(ctx):
     t0 = max(traces, key=lambda t: len(t["copies"]))
     ctx.sample({"maxr": t0["maxr"], "events": [[e["act"]["a"], e["act"]["t"], e["copies"], e["ret"]] for e in t0["ev"]], "copies_at": [c["at"] for c in t0["copies"]]})
     ctx.assumptions += ["virtual time: CheckExpirations(base + t s - 50 ms); the entry's own start stamp is the real clock, microseconds before base",
-                        "one request at a time (NSTART interplay is covered by C09/C13 runs)"]
+                        "one request under test at a time; in the 'queue' histories it first waits 150 ms of real time behind another request that holds the NSTART slot (NSTART = 1)"]
     return vf.finish(ctx, extra_cov={"exhaustive": not ctx.notes})
